@@ -473,6 +473,16 @@ theorem single_eq_model (nanv : γ) (ncf nsf : Nat) (yt yp : List Rat) (m : Metr
   funext idx
   exact metricFn_own yt yp [m] hok m (by simp) idx
 
+/-- a checkable sufficient condition for `ColsOK` (dict of metrics): the metric names are distinct, contain
+    no underscore and are not "y"; the parameter names of each metric are distinct (dict keys).  Then no
+    two sample parameters share a column and none shadows y_true / y_pred. -/
+theorem multi_colsOK_of_no_underscore (yt yp : List Rat) (ms : List (MetricSpec γ))
+    (hnames : (ms.map (·.name)).Nodup) (hpre : ∀ m ∈ ms, m.colPrefix = some m.name)
+    (hparams : ∀ m ∈ ms, (m.params.map (·.1)).Nodup)
+    (hus : ∀ m ∈ ms, '_' ∉ m.name.toList) (hy : ∀ m ∈ ms, m.name ≠ "y") :
+    ColsOK (baseData yt yp) ms :=
+  colsOK_of_no_underscore yt yp ms hnames hpre hparams hus hy
+
 /-- the public accessors hand out exactly the documented pandas types (table in the docstring of
     `MetricFrame.overall`), for the `_extract_result` / `_populate_results` lifted from the source -/
 theorem accessor_types (bare hasControl : Bool) :
@@ -493,6 +503,22 @@ theorem multi_crosstalk_witness :
     metricFn (constructAll (baseData [0, 1, 1] [0, 1, 0]) xtalk).1 (annotatedOf (xtalk.getD 0 ⟨"", none, sumKw, []⟩)) [0, 1] = 30
     ∧ sumKw [] (ownKwargs (xtalk.getD 0 ⟨"", none, sumKw, []⟩) [0, 1]) = 3
     ∧ ¬ ColsOK (baseData [0, 1, 1] [0, 1, 0]) xtalk := by
+  refine ⟨by decide +kernel, by decide +kernel, ?_⟩
+  unfold ColsOK; decide +kernel
+
+/-- second WITNESS of F17: a metric named "y" with a parameter named "pred" overwrites the `y_pred` column,
+    so EVERY metric of the dict (here: the fraction of rows with y_true = y_pred) sees the parameter
+    values instead of the predictions. -/
+def agree : List (List Rat) → List (String × List Rat) → Rat :=
+  fun pos _ => (((pos.getD 0 []).zip (pos.getD 1 [])).filter (fun p => p.1 == p.2)).length
+
+def xbase : List (MetricSpec Rat) :=
+  [⟨"y", some "y", sumKw, [("pred", some [1, 0, 0])]⟩, ⟨"acc", some "acc", agree, []⟩]
+
+theorem multi_basecolumn_witness :
+    metricFn (constructAll (baseData [0, 1, 1] [0, 1, 0]) xbase).1 (annotatedOf (xbase.getD 1 ⟨"", none, sumKw, []⟩)) [0, 1, 2] = 0
+    ∧ agree [[0, 1, 1], [0, 1, 0]] [] = 2
+    ∧ ¬ ColsOK (baseData [0, 1, 1] [0, 1, 0]) xbase := by
   refine ⟨by decide +kernel, by decide +kernel, ?_⟩
   unfold ColsOK; decide +kernel
 
